@@ -56,6 +56,7 @@ HTML_BLOCKS = [
     (1, ['<SCRIPT>', '', 'a', '</SCRIPT>']), (1, ['<Pre>', '', '*x*', '</PRE>']), (6, ['<DIV>', 'y', '</DIV>']), (1, ['<STYLE>', '', 'p{}', '</style>']),
 ]
 MARKER_LIKE = ['> q', '# h', '- l', '+ p', '1. x', '2) y', '***', '---', '[a]: b', '===', '>']
+EXACT_LABELS = ['a\\]b', 'x\\\ny', 'p\\[q\\]', 'two\nlines', 'back\\\\slash']
 LABELS = ['foo', 'bar', 'Baz', 'long label', 'x1', 'ẞtraße', 'Σίσυφος', 'mixed Case Label', 'q']
 
 
@@ -112,7 +113,7 @@ def gen_inlines(c, depth=0, allow_link=True, allow_break=True, n=None, allow_htm
     for i in range(n):
         k = t.below(100)
         if c.refs and allow_link and not plain and t.chance(80):
-            it = gen_reflink(c, depth)
+            it = gen_reflink(c, depth, allow_break)
         elif plain or k < 42:
             it = gen_word(c)
         elif k < 50 and depth < 2:
@@ -145,7 +146,7 @@ def gen_inlines(c, depth=0, allow_link=True, allow_break=True, n=None, allow_htm
             src, dec = t.choice(ENTITIES)
             it = N('entity', src=src, dec=dec)
         elif c.refs and allow_link:
-            it = gen_reflink(c, depth)
+            it = gen_reflink(c, depth, allow_break)
         else:
             it = gen_word(c)
         items.append(it)
@@ -250,10 +251,17 @@ def gen_link(c, depth, image):
              tsep=1 if c.canonical else t.weighted([(4, 1), (1, 2)]))
 
 
-def gen_reflink(c, depth):
+def gen_reflink(c, depth, nl_ok=False):
     t = c.t
     rec = t.choice(c.labels) if c.labels and not t.chance(40) else None
     image = t.chance(50)
+    if rec is not None and rec.get('exact'):
+        if '\n' in rec['label'] and not nl_ok:
+            rec = next((r for r in c.labels if not r.get('exact')), None)
+        else:
+            rec['used'] = True
+            return N('reflink', form='full', label=rec['label'], spelled=rec['label'],
+                     children=gen_inlines(c, depth + 1, False, False, 1 + t.below(2), False), image=image, rec=rec)
     if rec is None:
         # undefined label: stays literal text
         return N('reflink', form=t.choice(['shortcut', 'collapsed']), label='undefined ' + t.choice(WORDS), spelled=None,
@@ -662,6 +670,13 @@ def plan_labels(c):
                          'title_nl': (not c.canonical and not c.reflow and t.chance(50)),
                          'cont_indent': t.weighted([(3, 0), (1, 1), (1, 3)])})
         c.labels.append({'label': label, 'defs': defs, 'used': False})
+    if not c.canonical and not c.reflow and 'dest_escape' not in c.exclude and t.chance(60):
+        # a label with backslash escapes / a line ending inside: matched as written (labels are not unescaped),
+        # used in full references only, where the label is not displayed
+        label = t.choice(EXACT_LABELS)
+        c.labels.append({'label': label, 'exact': True, 'used': False,
+                         'defs': [{'spelled': label, 'dest': '/exact%d' % t.below(3), 'angle': False, 'title': t.choice(['', 'te']), 'tq': '"',
+                                   'order': None, 'dest_nl': False, 'title_nl': False, 'cont_indent': 0}]})
 
 
 def place_definitions(c, top):
